@@ -99,6 +99,35 @@ def _measures(ctx, col):
                 col.unresolved("R-TOTALSRC", d.qualname, d.loc(binds[0]), "the last position is the table's last abscissa", f"`{txt}`: relation to the interpolation table not recognised", stmt="totalsrc")
     if not n_ts:
         col.unresolved("R-TOTALSRC", "swcgeom.transforms", "swcgeom/transforms/branch.py:1", "the last position is the table's last abscissa", "no linspace / arange end bound to a single name found next to np.interp", stmt="totalsrc")
+    # (a) "this branch has no length" is a statement about the arc length, not about its two end points; (b) interpolators that divide by the abscissa step need strictly increasing
+    #     abscissae, and the arc length of a branch with a zero-length segment repeats a value
+    col.rule("R-DEGENERATE", "a branch is treated as degenerate (early return, single point) only on its arc length: no early return under a comparison of the first with the last point "
+             "(a closed loop ends where it starts and has length); no scipy interpolator that requires strictly increasing abscissae (interp1d, CubicSpline, splrep, PchipInterpolator, "
+             "Akima1DInterpolator) over the cumulative arc length -- a zero-length segment repeats an abscissa and yields NaN (zero expected)", floor=0)
+    n_dg = 0
+    for d in ctx.repo.all_defs():
+        if d.module.name not in RES or d.is_lambda:
+            continue
+        for i_ in own_nodes(d):
+            if isinstance(i_, ast.If) and i_.body and isinstance(i_.body[-1], ast.Return):
+                t_ = norm_src(i_.test)
+                ends = [x for x in ast.walk(i_.test) if isinstance(x, ast.Subscript) and norm_src(x.slice).split(",")[0].strip("() ") in ("0", "-1")]
+                bases = {norm_src(x.value) for x in ends}
+                firsts = any(norm_src(x.slice).split(",")[0].strip("() ") == "0" for x in ends)
+                lasts = any(norm_src(x.slice).split(",")[0].strip("() ") == "-1" for x in ends)
+                if firsts and lasts and len(bases) == 1 and any(k in t_ for k in ("array_equal", "allclose", "isclose", "==", "norm")) and not any(k in t_ for k in ("cumul", "length", "dist")):
+                    n_dg += 1
+                    col.bad("R-DEGENERATE", d.qualname, d.loc(i_), "only a branch without length is degenerate",
+                            f"`if {t_[:70]}: return ...` decides from the two end points: a branch that ends where it starts (a tip curling back onto its furcation, two coincident furcations) "
+                            f"has a positive length and is collapsed to a point", stmt="degenerate-ends", definite=True)
+        for c in own_nodes(d):
+            if isinstance(c, ast.Call) and (dotted(c.func) or "").rsplit(".", 1)[-1] in ("interp1d", "CubicSpline", "splrep", "PchipInterpolator", "Akima1DInterpolator", "make_interp_spline"):
+                n_dg += 1
+                col.bad("R-DEGENERATE", d.qualname, d.loc(c), "interpolation tolerates repeated abscissae",
+                        f"`{norm_src(c)[:70]}` requires strictly increasing abscissae (it divides by their differences): the arc length of a branch that stores a point twice repeats a value, "
+                        f"and the resampled branch comes out NaN (np.interp does not divide where the step is zero)", stmt="degenerate-interp", definite=True)
+    if not n_dg:
+        col.ok("R-DEGENERATE", "swcgeom.transforms", "swcgeom/transforms/branch.py:1", "degeneracy is decided on the arc length; interpolation tolerates repeated abscissae", f"{n_defs} functions scanned", stmt="degenerate")
     if not n_ch:
         col.ok("R-CHORD", "swcgeom.transforms", "swcgeom/transforms/branch.py:1", "the spacing is measured along the branch", f"{n_defs} functions scanned, no spacing/chord comparison", stmt="chord")
     if not n_bd:
